@@ -537,3 +537,21 @@ def builtin_open(I, a, k):
     if not isinstance(a[0], str):
         raise OutOfReach("open() with symbolic path")
     return FileModel(a[0])
+
+
+@stdlib("weakref")
+def _weakref(I):
+    B = I.world.builtins
+    mk = Native("WeakKeyDictionary", lambda I_, a, k: I_.call(B["dict"], a, k))
+    return module("weakref", WeakKeyDictionary=mk, WeakValueDictionary=mk,
+                  WeakSet=Native("WeakSet", lambda I_, a, k: I_.call(B["set"], a, k)))
+
+
+@stdlib("collections")
+def _collections(I):
+    B = I.world.builtins
+
+    def defaultdict(I_, a, k):
+        raise OutOfReach("collections.defaultdict")
+    return module("collections", OrderedDict=Native("OrderedDict", lambda I_, a, k: I_.call(B["dict"], a, k)),
+                  defaultdict=Native("defaultdict", defaultdict))
